@@ -241,7 +241,9 @@ def replay_behaviour(beh, seed):
             if len(L) != len(before):
                 raise tlc.MachineryError(f"behaviour/implementation lost sync before step {k}: {beh}")
             lmax = max([v for v in L if v > 0] or [1])
-            gate_true = st["g"] == 1
+            # g = 2: the specification says the gate is not consulted in this update, so its value must
+            # not matter: realise it as "would hold" or "would fail" at random
+            gate_true = st["g"] == 1 or (st["g"] == 2 and rng.random() < 0.5)
             base = 0.0 if gate_true else 30.0
             for m, lv in zip(before, L):
                 if lv == 0:
@@ -401,7 +403,7 @@ WQ = 4000      # integer scale of logged probabilities
 LQ = 1000      # integer scale of logged likelihood ratios (largest likelihood = LQ)
 GATE_LOG: list = []
 TRACE_TH = [(3, 101), (5, 101), (10, 101), (20, 101), (30, 101)]
-TRACE_PCT = [(51, 101), (67, 101), (80, 101), (91, 101), (97, 101)]
+TRACE_PCT = [(34, 101), (45, 101), (51, 101), (67, 101), (80, 101), (91, 101), (97, 101)]
 TRACE_MIX = [(3, 2), (2, 1), (1, 2), (5, 1)]
 SENSOR = np.array([6378.0, 0.0, 0.0, 0.0, 0.465, 0.0])
 TRUTH0 = np.array([6900.0, 600.0, 300.0, -0.5, 6.5, 3.7])
